@@ -34,7 +34,9 @@ func (c *Float) SetStepValue(value float64) {
 
 // GetValue returns the value as float
 func (c *Float) GetValue() float64 {
-	return c.Characteristic.GetValue().(float64)
+	// A characteristic which is not readable (e.g. identify) does not store a value
+	value, _ := c.Characteristic.GetValue().(float64)
+	return value
 }
 
 func (c *Float) GetMinValue() float64 {
